@@ -95,8 +95,8 @@ def gen_c14(rng, profile):
                         "offset": rng.randint(0, 10 ** 6)}
             else:
                 enum = {"mode": "preempt", "target": target,
-                        "cap_gen": profile.get("cap_gen", 40) * 3,
-                        "cap_gstate": profile.get("cap_gstate", 60)}
+                        "cap_gen": profile.get("cap_gen", 25) * 2,
+                        "cap_gstate": profile.get("cap_gstate", 40)}
             return {"prop": "C14", "spec": spec2, "ops": ops, "opts": {"knobs": kn, "enum": enum}}
     if profile.get("batch") == "conc_enum":
         from . import family as F
@@ -120,8 +120,8 @@ def gen_c14(rng, profile):
             ops[pos:pos] = [conc] + [dict(o) for prog in conc["progs"] for o in prog]
             return {"prop": "C14", "spec": spec, "ops": ops,
                     "opts": {"knobs": kn, "enum": {"mode": "preempt", "target": pos,
-                                                   "cap_gen": profile.get("cap_gen", 40),
-                                                   "cap_gstate": profile.get("cap_gstate", 60)}}}
+                                                   "cap_gen": profile.get("cap_gen", 25),
+                                                   "cap_gstate": profile.get("cap_gstate", 40)}}}
         return {"prop": "C14", "spec": spec, "ops": ops, "opts": {"knobs": kn}}
     if profile.get("batch") == "abort_enum":
         kn["aborts"] = False
